@@ -286,6 +286,19 @@ class Ctx:
                              % (hist, hist.split(",")[-1], "<".join("%s.%s" % f for f in frames[:4])), {"history": hist.split(","), "frames": frames[:8]})
             raise NoVerdict("the real code does not return from an operation (history %s, frames %s)%s" % (
                 hist, "<".join("%s.%s" % f for f in frames[:3]), "" if self.pid == "C02" else "; decided by C02 (Outcome_hang)"))
+        if p.returncode == 2 and p.returncode not in ok_codes:
+            # a Go panic ended the harness process.  If the panicking goroutine was created by anndb code (nothing
+            # in the harness is on its stack, so nothing could have recovered it) the real code takes down whatever
+            # process runs it: that is a behaviour of the code under test, not a tool failure
+            err = p.stderr.decode(errors="replace")
+            m = re.search(r"^(panic: [^\n]*|fatal error: [^\n]*)\n(?:.*\n)*?\ngoroutine \d+ [^\n]*\n((?:.+\n)+)", err, re.M)
+            if m:
+                block = m.group(2)
+                frames = re.findall(r"github.com/marekgalovic/anndb/([\w/]+)\.\(?\*?(\w+)\)?\.(\w+)", block)
+                if frames and "verifharness" not in block and "main." not in block and "created by github.com/marekgalovic/anndb/" in block:
+                    top = "%s.%s" % (frames[0][1], frames[0][2])
+                    self.finding("ProcessCrash@" + top, "ProcessCrash: %s in a goroutine started by %s (%s): the process running the call dies"
+                                 % (m.group(1)[:120], top, " ".join(cmd[1:3])[-80:]), {"panic": m.group(1), "stack": block[:2500], "cmd": cmd[1:]})
         if p.returncode not in ok_codes:
             raise NoVerdict("harness exit %d: %s\n%s" % (p.returncode, " ".join(cmd[:3]),
                                                           p.stderr.decode(errors="replace")[-3000:]))
